@@ -11,7 +11,7 @@ from .. import AnalysisError, AnchorMissing
 from ..cfg import cfg_of
 from ..model import own_nodes
 from ..values import pattern, match, match_any, find, contains, show, subterms
-from .base import obligation, src, callee_name
+from .base import obligation, src, callee_name, if_branches, split_if
 from .C04 import pattern_term, returns, enclosing_loop, _inside
 
 U = 'elfi.methods.utils'
@@ -81,7 +81,12 @@ def c13_a(ctx):
     # alpha == 0 -> smallest element
     ok = len(zero) == 1 and match(zero[0], pattern('x[np.argsort(x)[0]]')) is not None
     sel = [n for n in own_nodes(f.node) if isinstance(n, ast.If) and
-           match(ex.term(n.test), pattern('alpha == 0')) is not None]
+           if_branches(ex, n, 'alpha == 0') is not None]
+    if sel:
+        zb = if_branches(ex, sel[0], 'alpha == 0')[0]
+        ok = ok and any(isinstance(s_, ast.Assign) and
+                        match(ex.term(s_.value), pattern('x[np.argsort(x)[0]]')) is not None
+                        for s_ in zb)
     ctx.check(ok and bool(sel), f, 'alpha = 0 gives the minimum', 'x[index[0]]',
               'the alpha == 0 case does not return the smallest element', fn=f,
               node=sel[0] if sel else rr[0])
